@@ -193,11 +193,30 @@ def _entry_calls(slot, bad, tags, fields, variant):
             return {"tags": lambda t: {**t, **tags}}
         return {"fields": lambda f: {**f, **fields}}
 
+    def kw_callable_stateful():
+        # one output mapping reused for every point: valid on the first call, invalid from the second call on
+        if tags is not None:
+            out, good, key = {}, {"z": "ok"}, "tags"
+            bad_map = tags
+        else:
+            out, good, key = {}, {"z": 1}, "fields"
+            bad_map = fields
+        n = [0]
+
+        def f(old):
+            n[0] += 1
+            out.clear()
+            out.update(good if n[0] == 1 else bad_map)
+            return out
+
+        return {key: f}
+
     styles = [("static", kw_static), ("callable", kw_callable)]
     if tags is not None or fields is not None:
         styles.append(("callable", kw_callable_merged))
+        styles.append(("callable", kw_callable_stateful))
     for si, (style, mk) in enumerate(styles):
-        sv = v + ("+old" if si == 2 else "")
+        sv = v + ("+old" if si == 2 else "+stateful" if si == 3 else "")
         yield f"update({style}){sv}", lambda db, mk=mk: db.update(Q, **mk())
         yield f"update_all({style}){sv}", lambda db, mk=mk: db.update_all(**mk())
         yield f"handle.update({style}){sv}", lambda db, mk=mk: db.measurement("m0").update(Q, **mk())
@@ -255,7 +274,7 @@ def run(res, tier, seed, shard, nshards):
                     call(db)
                 except Exception as e:
                     exc = e
-            res.count(f"entry.{label.split('#')[0].split('+old')[0]}")
+            res.count(f"entry.{label.split('#')[0].split('+old')[0].split('+stateful')[0]}")
             res.count("raised" if exc is not None else "returned")
             res.seen((label, slot, vname, cfg))
             if len(res.samples) < 5 and (res.evaluations % 97 == 1):
